@@ -56,6 +56,7 @@ func main() {
 	r := evidence.New("C09", "exploration")
 	r.Rule("phase small: seeded DAG of ≤ ~14 nodes (referrer chains incl. referrers of untagged / absent / garbage subjects, indexes with and without subject, shared blobs, foreign layers) + a setup history H of pushes (children-first | parents-first | random | partial), tags (moved tags, tagged referrers, tagged blobs), untags and stray files; " +
 		"then EVERY node is tried as Delete target (AutoGC on and off, and once more after a GC) and GC is run after EVERY prefix of H, each on a freshly rebuilt store (one evaluation each); plus a GC made to fail by a corrupt reachable manifest (must change nothing reachable), followed by Deletes. " +
+		"A Delete with AutoGC whose cascade fails part-way (the blob file of a collected successor replaced by a non-empty directory) is judged in memory against the model restricted to what really went, and on disk (index.json and a store opened from the directory must not name removed content and must have lost exactly the references of the removed nodes). " +
 		"A Delete whose cascade reaches a manifest twice (referrer of removed content that is also listed by a collected index) and a GC with second-order referrers are replayed 8 times on fresh stores (library map order) and must end identically. " +
 		"phase hist: DAG of ≤ 80 nodes, push phase, then 6–25 random operations (tag/move/untag/delete/GC/re-push/stray), every Delete and GC judged in place. " +
 		"Oracle: Exists, Resolve, Tags, Predecessors, recursive blobs/ listing before vs after against the reference GC model of the statement (removed set and kept set both exact; current tags, not ever-tagged). " +
@@ -103,7 +104,7 @@ func main() {
 	// a run that never reached the termination hook or never produced the
 	// shapes the property is about has observed too little
 	need := []string{"gc_subject_steps", "shape_gc_referrer_of_unreachable_subject", "shape_delete_spares_tagged_referrer",
-		"shape_delete_collects_formerly_tagged", "shape_delete_neverstored_successor_after_gc", "shape_gc_second_order_referrer", "shape_delete_multiply_reached", "delete_order_probe_replays", "gc_failed_injected", "moved_tags", "stray_blob_files_removed", "stray_other_files_kept"}
+		"shape_delete_collects_formerly_tagged", "shape_delete_neverstored_successor_after_gc", "shape_gc_second_order_referrer", "shape_delete_multiply_reached", "delete_order_probe_replays", "gc_failed_injected", "delete_failed_disk_checks", "moved_tags", "stray_blob_files_removed", "stray_other_files_kept"}
 	code := 0
 	for _, k := range need {
 		if r.Counter(k) == 0 {
@@ -498,6 +499,13 @@ func runHist(i int, rng *rand.Rand, res *worker.Result) {
 	for s := 0; s < steps && !e.stop; s++ {
 		e.randomOp(rng, do)
 	}
+	if !e.stop && rng.IntN(3) == 0 {
+		// terminal step: a Delete whose cascade fails part-way
+		if c := e.deleteFailTargets(); len(c) > 0 {
+			tv := c[rng.IntN(len(c))]
+			do(op{Op: "deletefail", Node: tv[0], Victim: tv[1]})
+		}
+	}
 	res.Key = g.Shape(g.Roots()...) + "|" + opsString(e.ops)
 	res.NT = e.nt
 	res.Count("history_operations", int64(len(e.ops)))
@@ -674,6 +682,35 @@ func runSmall(i int, rng *rand.Rand, res *worker.Result) {
 			for t := rng.IntN(3); t < len(g.Nodes) && ok; t += 3 {
 				ok = sub(H, op{Op: "gcfail", Node: bad}, op{Op: "delete", Node: t, AutoGC: true})
 			}
+		}
+	}
+	// a Delete whose cascade fails part-way, for every manifest target that has a collectable blob
+	if ok {
+		probe := &env{g: g, m: newModel(g), res: &worker.Result{}}
+		for _, o := range H {
+			switch o.Op {
+			case "push":
+				probe.m.stored[o.Node] = true
+			case "tag":
+				probe.m.tags[o.Ref] = o.Node
+			case "untag":
+				delete(probe.m.tags, o.Ref)
+			}
+		}
+		byTarget := map[int][]int{}
+		var targets []int
+		for _, tv := range probe.deleteFailTargets() {
+			if len(byTarget[tv[0]]) == 0 {
+				targets = append(targets, tv[0])
+			}
+			byTarget[tv[0]] = append(byTarget[tv[0]], tv[1])
+		}
+		for _, t := range targets {
+			if !ok {
+				break
+			}
+			vs := byTarget[t]
+			ok = sub(H, op{Op: "deletefail", Node: t, Victim: vs[rng.IntN(len(vs))]})
 		}
 	}
 	res.Evals = evals
